@@ -288,3 +288,12 @@ Proof. exact ppo_stream_pow2. Qed.
 Theorem C14_ppo_pow2_binary64 : forall k pf ps pg s xs xs', ppo_new FOps pf ps pg = Ok s -> Forall2 (scaled k) xs xs' -> ppo_run_ok k s xs ->
   Forall2 (Forall2 (scaled 0)) (ppo_outs FOps s xs) (ppo_outs FOps s xs').
 Proof. exact ppo_pow2_invariant. Qed.
+
+(* ... and RateOfChange over whole streams (ring buffer of inputs + the invariant ratio): unchanged by 2^k *)
+From TA Require Import Proofs.FloatScaleRoc.
+Theorem C14_roc_stream_pow2_binary64 : forall k xs xs' s s', rel_roc k s s' -> Forall2 (scaled k) xs xs' -> roc_run_ok k s xs ->
+  Forall2 (scaled 0) (res_outs (roc_next FOps) s xs) (res_outs (roc_next FOps) s' xs').
+Proof. exact roc_stream_pow2. Qed.
+Theorem C14_roc_pow2_stream_binary64 : forall k p s xs xs', roc_new FOps p = Ok s -> Forall2 (scaled k) xs xs' -> roc_run_ok k s xs ->
+  Forall2 (scaled 0) (res_outs (roc_next FOps) s xs) (res_outs (roc_next FOps) s xs').
+Proof. exact roc_pow2_invariant_stream. Qed.
